@@ -1,6 +1,2536 @@
-//! WasmGC interpreter over wasmparser's operator stream (to be filled in).
-use super::Run;
+//! WasmGC interpreter over wasmparser's reader/operator stream.
+//!
+//! The emitted binary is validated, every function body is pre-decoded once into a flat vector of
+//! compact `Op`s with resolved branch targets, and then executed by an explicit-frame-stack loop
+//! (no native recursion per wasm call).  Values are untyped 64-bit slots:
+//!   * i32: zero-extended, i64: as is
+//!   * references: 0 = null, low two bits tag the rest: 1 = i31 (payload << 2), 2 = heap object
+//!     (word offset of the header in `heap`, << 2), 3 = function (index << 2)
+//! Heap objects live in one word arena: header = (length << 32 | module type index), then the
+//! payload (one word per struct field / array element; i8 and i16 arrays are packed).
+//! There is no garbage collector: a run that exceeds the arena limit ends as `End::Budget`.
+use super::{End, Run};
+use std::collections::HashMap;
+use wasmparser::{
+  AbstractHeapType, BlockType, CompositeInnerType, DataKind, ElementItems, ElementKind,
+  ExternalKind, HeapType, Operator, OperatorsReader, Parser, Payload, RefType, StorageType,
+  SubType, TableInit, TypeRef, UnpackedIndex, ValType, Validator, WasmFeatures,
+};
 
-pub fn run_wasm(_wasm: &[u8], _main_fn: &str, _fuel: u64) -> Result<Run, String> {
-  Err("wasm_interp not implemented".to_string())
+const MAX_DEPTH: usize = 20000;
+const DEFAULT_HEAP_WORDS: usize = 64 << 20; // 512 MiB of arena
+const MAX_ARRAY_WORDS: usize = 1 << 27; // beyond this: "requested new array is too large"
+const MAX_TABLE: usize = 10_000_000;
+
+// encoded cast target: bit31 nullable, bit30 concrete, low bits = type index / abstract code
+const T_NULLABLE: u32 = 1 << 31;
+const T_CONCRETE: u32 = 1 << 30;
+const T_MASK: u32 = (1 << 30) - 1;
+const A_ANY: u32 = 0;
+const A_EQ: u32 = 1;
+const A_I31: u32 = 2;
+const A_STRUCT: u32 = 3;
+const A_ARRAY: u32 = 4;
+const A_NONE: u32 = 5;
+const A_FUNC: u32 = 6;
+const A_NOFUNC: u32 = 7;
+const A_EXTERN: u32 = 8;
+const A_NOEXTERN: u32 = 9;
+
+const HOST_PRINTLN: u8 = 1;
+const HOST_PANIC: u8 = 2;
+
+fn features() -> WasmFeatures {
+  WasmFeatures::WASM3
+}
+
+pub fn validate_wasm(wasm: &[u8]) -> Result<(), String> {
+  let mut v = Validator::new_with_features(features());
+  v.validate_all(wasm).map(|_| ()).map_err(|e| format!("invalid wasm module: {e}"))
+}
+
+// ---------------------------------------------------------------------------------------------
+// decoded module
+// ---------------------------------------------------------------------------------------------
+
+#[derive(Clone, Copy, PartialEq, Eq, Debug)]
+enum Stor {
+  I8,
+  I16,
+  Word,
+}
+
+#[derive(Debug)]
+enum TyKind {
+  Func { params: u32, results: u32 },
+  Struct { n: u32, fields: Vec<Stor>, packed: Vec<(u32, Stor)> },
+  /// `bytes`: width of a numeric element inside a data segment (0 for references)
+  Array { elem: Stor, bytes: u32 },
+  Other,
+}
+
+#[derive(Debug)]
+struct TypeInfo {
+  kind: TyKind,
+  canon: u32,
+  /// canonical ids of the declared supertype chain, root first, self last
+  supers: Vec<u32>,
+}
+
+#[derive(Clone, Debug)]
+struct FuncInfo {
+  type_idx: u32,
+  entry: u32,
+  n_params: u32,
+  n_locals: u32,
+  n_results: u32,
+  frame_size: u32,
+  host: u8,
+}
+
+#[derive(Clone, Copy, Debug)]
+struct BrEntry {
+  target: u32,
+  height: u32,
+  arity: u32,
+}
+
+#[derive(Clone, Copy, Debug)]
+enum Op {
+  Unreachable,
+  Jump(u32),
+  JumpAdj { target: u32, height: u32, arity: u32 },
+  JmpIfZ(u32),
+  JmpIfNz(u32),
+  JmpIfNull(u32),
+  JmpIfNonNull(u32),
+  JmpIfCast { target: u32, ty: u32 },
+  JmpIfNotCast { target: u32, ty: u32 },
+  BrTable { base: u32, count: u32 },
+  Return(u32),
+  Call(u32),
+  CallIndirect { ty: u32, table: u32 },
+  CallRef,
+  RetCall(u32),
+  RetCallIndirect { ty: u32, table: u32 },
+  RetCallRef,
+  Drop,
+  Select,
+  LocalGet(u32),
+  LocalSet(u32),
+  LocalTee(u32),
+  GlobalGet(u32),
+  GlobalSet(u32),
+  Const(u64),
+  // i32
+  I32Eqz,
+  I32Eq,
+  I32Ne,
+  I32LtS,
+  I32LtU,
+  I32GtS,
+  I32GtU,
+  I32LeS,
+  I32LeU,
+  I32GeS,
+  I32GeU,
+  I32Clz,
+  I32Ctz,
+  I32Popcnt,
+  I32Add,
+  I32Sub,
+  I32Mul,
+  I32DivS,
+  I32DivU,
+  I32RemS,
+  I32RemU,
+  I32And,
+  I32Or,
+  I32Xor,
+  I32Shl,
+  I32ShrS,
+  I32ShrU,
+  I32Rotl,
+  I32Rotr,
+  I32Extend8S,
+  I32Extend16S,
+  I32WrapI64,
+  // i64
+  I64Eqz,
+  I64Eq,
+  I64Ne,
+  I64LtS,
+  I64LtU,
+  I64GtS,
+  I64GtU,
+  I64LeS,
+  I64LeU,
+  I64GeS,
+  I64GeU,
+  I64Clz,
+  I64Ctz,
+  I64Popcnt,
+  I64Add,
+  I64Sub,
+  I64Mul,
+  I64DivS,
+  I64DivU,
+  I64RemS,
+  I64RemU,
+  I64And,
+  I64Or,
+  I64Xor,
+  I64Shl,
+  I64ShrS,
+  I64ShrU,
+  I64Rotl,
+  I64Rotr,
+  I64ExtendI32S,
+  I64ExtendI32U,
+  I64Extend8S,
+  I64Extend16S,
+  I64Extend32S,
+  // references
+  RefIsNull,
+  RefAsNonNull,
+  RefEq,
+  RefTest(u32),
+  RefCast(u32),
+  RefI31,
+  I31GetS,
+  I31GetU,
+  // structs
+  StructNew { ty: u32, n: u32 },
+  StructNewDefault { ty: u32, n: u32 },
+  StructGet(u32),
+  StructGetS8(u32),
+  StructGetS16(u32),
+  StructSet(u32),
+  StructSet8(u32),
+  StructSet16(u32),
+  // arrays
+  ArrayNew(u32),
+  ArrayNewDefault(u32),
+  ArrayNewFixed { ty: u32, n: u32 },
+  ArrayNewData { ty: u32, data: u32 },
+  ArrayNewElem { ty: u32, elem: u32 },
+  ArrayGet,
+  ArrayGetU8,
+  ArrayGetS8,
+  ArrayGetU16,
+  ArrayGetS16,
+  ArraySet,
+  ArraySet8,
+  ArraySet16,
+  ArrayLen,
+  ArrayFill(Stor),
+  ArrayCopy(Stor),
+  ArrayInitData { ty: u32, data: u32 },
+  ArrayInitElem(u32),
+  // tables / segments
+  TableGet(u32),
+  TableSet(u32),
+  TableSize(u32),
+  TableGrow(u32),
+  TableFill(u32),
+  TableCopy { dst: u32, src: u32 },
+  TableInit { elem: u32, table: u32 },
+  ElemDrop(u32),
+  DataDrop(u32),
+}
+
+enum ElemMode {
+  Passive,
+  Declared,
+  Active { table: u32, offset_fn: u32 },
+}
+
+enum ElemItem {
+  Func(u32),
+  Expr(u32),
+}
+
+struct ElemSeg {
+  mode: ElemMode,
+  items: Vec<ElemItem>,
+}
+
+struct TableDef {
+  initial: u64,
+  maximum: Option<u64>,
+  init_fn: Option<u32>,
+}
+
+struct Module {
+  types: Vec<TypeInfo>,
+  funcs: Vec<FuncInfo>,
+  code: Vec<Op>,
+  br_tables: Vec<BrEntry>,
+  global_inits: Vec<u32>,
+  tables: Vec<TableDef>,
+  elems: Vec<ElemSeg>,
+  datas: Vec<Vec<u8>>,
+  exports: HashMap<String, u32>,
+  start: Option<u32>,
+}
+
+fn stor_of(st: &StorageType) -> Stor {
+  match st {
+    StorageType::I8 => Stor::I8,
+    StorageType::I16 => Stor::I16,
+    StorageType::Val(_) => Stor::Word,
+  }
+}
+
+fn abstract_code(ty: AbstractHeapType) -> Result<u32, String> {
+  Ok(match ty {
+    AbstractHeapType::Any => A_ANY,
+    AbstractHeapType::Eq => A_EQ,
+    AbstractHeapType::I31 => A_I31,
+    AbstractHeapType::Struct => A_STRUCT,
+    AbstractHeapType::Array => A_ARRAY,
+    AbstractHeapType::None => A_NONE,
+    AbstractHeapType::Func => A_FUNC,
+    AbstractHeapType::NoFunc => A_NOFUNC,
+    AbstractHeapType::Extern => A_EXTERN,
+    AbstractHeapType::NoExtern => A_NOEXTERN,
+    other => return Err(format!("unsupported heap type {other:?}")),
+  })
+}
+
+fn enc_ht(nullable: bool, ht: HeapType) -> Result<u32, String> {
+  let n = if nullable { T_NULLABLE } else { 0 };
+  match ht {
+    HeapType::Abstract { shared: false, ty } => Ok(n | abstract_code(ty)?),
+    HeapType::Concrete(UnpackedIndex::Module(i)) => Ok(n | T_CONCRETE | i),
+    other => Err(format!("unsupported heap type {other:?}")),
+  }
+}
+
+fn enc_rt(rt: RefType) -> Result<u32, String> {
+  enc_ht(rt.is_nullable(), rt.heap_type())
+}
+
+// --- iso-recursive canonicalisation of the type section ---------------------------------------
+
+struct Canon<'a> {
+  start: u32,
+  end: u32,
+  canon: &'a [u32],
+  out: Vec<u32>,
+}
+
+impl Canon<'_> {
+  fn idx(&mut self, i: u32) {
+    if i >= self.start && i < self.end {
+      self.out.push(1);
+      self.out.push(i - self.start);
+    } else {
+      self.out.push(2);
+      self.out.push(self.canon[i as usize]);
+    }
+  }
+  fn heap(&mut self, ht: HeapType) -> Result<(), String> {
+    match ht {
+      HeapType::Abstract { shared, ty } => {
+        self.out.push(0);
+        self.out.push(ty as u32 * 2 + shared as u32);
+        Ok(())
+      }
+      HeapType::Concrete(UnpackedIndex::Module(i)) => {
+        self.idx(i);
+        Ok(())
+      }
+      other => Err(format!("unsupported heap type in type section: {other:?}")),
+    }
+  }
+  fn val(&mut self, vt: ValType) -> Result<(), String> {
+    match vt {
+      ValType::I32 => self.out.push(10),
+      ValType::I64 => self.out.push(11),
+      ValType::F32 => self.out.push(12),
+      ValType::F64 => self.out.push(13),
+      ValType::V128 => self.out.push(14),
+      ValType::Ref(rt) => {
+        self.out.push(15 + rt.is_nullable() as u32);
+        self.heap(rt.heap_type())?;
+      }
+    }
+    Ok(())
+  }
+  fn stor(&mut self, st: &StorageType, mutable: bool) -> Result<(), String> {
+    self.out.push(20 + mutable as u32);
+    match st {
+      StorageType::I8 => self.out.push(30),
+      StorageType::I16 => self.out.push(31),
+      StorageType::Val(v) => self.val(*v)?,
+    }
+    Ok(())
+  }
+  fn sub(&mut self, st: &SubType) -> Result<(), String> {
+    self.out.push(40 + st.is_final as u32);
+    match st.supertype_idx {
+      None => self.out.push(0),
+      Some(p) => {
+        let i = p.as_module_index().ok_or("non-module supertype index")?;
+        self.idx(i);
+      }
+    }
+    if st.composite_type.shared {
+      return Err("shared types are not supported".into());
+    }
+    match &st.composite_type.inner {
+      CompositeInnerType::Func(f) => {
+        self.out.push(50);
+        self.out.push(f.params().len() as u32);
+        for p in f.params() {
+          self.val(*p)?;
+        }
+        self.out.push(f.results().len() as u32);
+        for r in f.results() {
+          self.val(*r)?;
+        }
+      }
+      CompositeInnerType::Array(a) => {
+        self.out.push(51);
+        self.stor(&a.0.element_type, a.0.mutable)?;
+      }
+      CompositeInnerType::Struct(s) => {
+        self.out.push(52);
+        self.out.push(s.fields.len() as u32);
+        for f in s.fields.iter() {
+          self.stor(&f.element_type, f.mutable)?;
+        }
+      }
+      CompositeInnerType::Cont(_) => return Err("continuation types are not supported".into()),
+    }
+    Ok(())
+  }
+}
+
+fn val_bytes(st: &StorageType) -> u32 {
+  match st {
+    StorageType::I8 => 1,
+    StorageType::I16 => 2,
+    StorageType::Val(ValType::I32) | StorageType::Val(ValType::F32) => 4,
+    StorageType::Val(ValType::I64) | StorageType::Val(ValType::F64) => 8,
+    _ => 0,
+  }
+}
+
+struct TypeTable {
+  types: Vec<TypeInfo>,
+  canon: Vec<u32>,
+  groups: HashMap<Vec<u32>, u32>,
+  next_canon: u32,
+}
+
+impl TypeTable {
+  fn add_group(&mut self, subs: Vec<SubType>) -> Result<(), String> {
+    let start = self.types.len() as u32;
+    let end = start + subs.len() as u32;
+    let mut c = Canon { start, end, canon: &self.canon, out: vec![subs.len() as u32] };
+    for s in &subs {
+      c.sub(s)?;
+    }
+    let key = c.out;
+    let base = match self.groups.get(&key) {
+      Some(b) => *b,
+      None => {
+        let b = self.next_canon;
+        self.next_canon += subs.len() as u32;
+        self.groups.insert(key, b);
+        b
+      }
+    };
+    for (k, s) in subs.iter().enumerate() {
+      let canon = base + k as u32;
+      self.canon.push(canon);
+      let kind = match &s.composite_type.inner {
+        CompositeInnerType::Func(f) => {
+          TyKind::Func { params: f.params().len() as u32, results: f.results().len() as u32 }
+        }
+        CompositeInnerType::Array(a) => {
+          TyKind::Array { elem: stor_of(&a.0.element_type), bytes: val_bytes(&a.0.element_type) }
+        }
+        CompositeInnerType::Struct(st) => {
+          let fields: Vec<Stor> = st.fields.iter().map(|f| stor_of(&f.element_type)).collect();
+          let packed = fields
+            .iter()
+            .enumerate()
+            .filter(|(_, s)| **s != Stor::Word)
+            .map(|(i, s)| (i as u32, *s))
+            .collect();
+          TyKind::Struct { n: fields.len() as u32, fields, packed }
+        }
+        CompositeInnerType::Cont(_) => TyKind::Other,
+      };
+      let mut supers = match s.supertype_idx {
+        None => Vec::new(),
+        Some(p) => {
+          let i = p.as_module_index().ok_or("non-module supertype index")? as usize;
+          // validation guarantees the supertype was defined earlier (or earlier in this group)
+          self.types.get(i).ok_or("forward supertype reference")?.supers.clone()
+        }
+      };
+      supers.push(canon);
+      self.types.push(TypeInfo { kind, canon, supers });
+    }
+    Ok(())
+  }
+}
+
+// ---------------------------------------------------------------------------------------------
+// function body -> Op vector
+// ---------------------------------------------------------------------------------------------
+
+#[derive(Clone, Copy, PartialEq, Eq)]
+enum CK {
+  Func,
+  Block,
+  Loop,
+  If,
+}
+
+enum Fix {
+  Code(usize),
+  Table(usize),
+}
+
+struct Ctrl {
+  kind: CK,
+  height: u32,
+  n_params: u32,
+  n_results: u32,
+  loop_pc: u32,
+  fixups: Vec<Fix>,
+  else_fix: Option<usize>,
+}
+
+struct Builder {
+  tt: TypeTable,
+  /// type index of every function in the index space (imports first)
+  func_types: Vec<u32>,
+  code: Vec<Op>,
+  br_tables: Vec<BrEntry>,
+}
+
+struct Body {
+  entry: u32,
+  max_h: u32,
+}
+
+fn set_target(op: &mut Op, t: u32) {
+  match op {
+    Op::Jump(x) | Op::JmpIfZ(x) | Op::JmpIfNz(x) | Op::JmpIfNull(x) | Op::JmpIfNonNull(x) => *x = t,
+    Op::JumpAdj { target, .. } | Op::JmpIfCast { target, .. } | Op::JmpIfNotCast { target, .. } => {
+      *target = t
+    }
+    _ => unreachable!("set_target on non-jump"),
+  }
+}
+
+struct Fc<'b> {
+  b: &'b mut Builder,
+  ctrls: Vec<Ctrl>,
+  h: u32,
+  max_h: u32,
+  n_locals: u32,
+  live: bool,
+  dead_depth: u32,
+}
+
+impl Fc<'_> {
+  fn pop(&mut self, n: u32) -> Result<(), String> {
+    self.h = self.h.checked_sub(n).ok_or("operand stack underflow while decoding (invalid module?)")?;
+    Ok(())
+  }
+  fn push(&mut self, n: u32) {
+    self.h += n;
+    if self.h > self.max_h {
+      self.max_h = self.h;
+    }
+  }
+  fn emit(&mut self, op: Op, pops: u32, pushes: u32) -> Result<(), String> {
+    self.pop(pops)?;
+    self.push(pushes);
+    self.b.code.push(op);
+    Ok(())
+  }
+  fn dead(&mut self) {
+    self.live = false;
+    self.dead_depth = 0;
+  }
+  fn func_sig(&self, ty: u32) -> Result<(u32, u32), String> {
+    match self.b.tt.types.get(ty as usize).map(|t| &t.kind) {
+      Some(TyKind::Func { params, results }) => Ok((*params, *results)),
+      _ => Err(format!("type {ty} is not a function type")),
+    }
+  }
+  fn block_sig(&self, bt: BlockType) -> Result<(u32, u32), String> {
+    match bt {
+      BlockType::Empty => Ok((0, 0)),
+      BlockType::Type(_) => Ok((0, 1)),
+      BlockType::FuncType(i) => self.func_sig(i),
+    }
+  }
+  fn push_ctrl(&mut self, kind: CK, p: u32, r: u32) -> Result<(), String> {
+    let height = self.h.checked_sub(p).ok_or("block parameters underflow")?;
+    self.ctrls.push(Ctrl {
+      kind,
+      height,
+      n_params: p,
+      n_results: r,
+      loop_pc: self.b.code.len() as u32,
+      fixups: Vec::new(),
+      else_fix: None,
+    });
+    Ok(())
+  }
+  /// (ctrl index, label arity, label height, known target)
+  fn label(&self, depth: u32) -> Result<(usize, u32, u32, Option<u32>), String> {
+    let n = self.ctrls.len();
+    let i = n.checked_sub(1 + depth as usize).ok_or("branch depth out of range")?;
+    let c = &self.ctrls[i];
+    if c.kind == CK::Loop {
+      Ok((i, c.n_params, c.height, Some(c.loop_pc)))
+    } else {
+      Ok((i, c.n_results, c.height, None))
+    }
+  }
+  /// emits an unconditional transfer to the label with whatever stack adjustment is needed
+  fn emit_jump(&mut self, depth: u32) -> Result<(), String> {
+    let (ci, arity, lh, known) = self.label(depth)?;
+    let at = self.b.code.len();
+    let t = known.unwrap_or(0);
+    if self.h == lh + arity {
+      self.b.code.push(Op::Jump(t));
+    } else {
+      self.b.code.push(Op::JumpAdj { target: t, height: self.n_locals + lh, arity });
+    }
+    if known.is_none() {
+      self.ctrls[ci].fixups.push(Fix::Code(at));
+    }
+    Ok(())
+  }
+  fn needs_adjust(&self, depth: u32) -> Result<bool, String> {
+    let (_, arity, lh, _) = self.label(depth)?;
+    Ok(self.h != lh + arity)
+  }
+  /// conditional branch: `direct(t)` jumps to the label when the condition holds (used when no
+  /// stack adjustment is needed), otherwise `inverse(skip)` jumps over an adjusting jump.
+  fn emit_cond(
+    &mut self,
+    depth: u32,
+    direct: impl Fn(u32) -> Op,
+    inverse: impl Fn(u32) -> Op,
+  ) -> Result<(), String> {
+    if !self.needs_adjust(depth)? {
+      let (ci, _, _, known) = self.label(depth)?;
+      let at = self.b.code.len();
+      self.b.code.push(direct(known.unwrap_or(0)));
+      if known.is_none() {
+        self.ctrls[ci].fixups.push(Fix::Code(at));
+      }
+    } else {
+      let at = self.b.code.len();
+      self.b.code.push(inverse(0));
+      self.emit_jump(depth)?;
+      let skip = self.b.code.len() as u32;
+      set_target(&mut self.b.code[at], skip);
+    }
+    Ok(())
+  }
+  fn patch(&mut self, f: Fix, t: u32) {
+    match f {
+      Fix::Code(i) => set_target(&mut self.b.code[i], t),
+      Fix::Table(i) => self.b.br_tables[i].target = t,
+    }
+  }
+  fn array_kind(&self, ty: u32) -> Result<(Stor, u32), String> {
+    match self.b.tt.types.get(ty as usize).map(|t| &t.kind) {
+      Some(TyKind::Array { elem, bytes }) => Ok((*elem, *bytes)),
+      _ => Err(format!("type {ty} is not an array type")),
+    }
+  }
+  fn struct_field(&self, ty: u32, f: u32) -> Result<(u32, Stor), String> {
+    match self.b.tt.types.get(ty as usize).map(|t| &t.kind) {
+      Some(TyKind::Struct { n, fields, .. }) => {
+        Ok((*n, *fields.get(f as usize).ok_or("struct field out of range")?))
+      }
+      _ => Err(format!("type {ty} is not a struct type")),
+    }
+  }
+  fn struct_n(&self, ty: u32) -> Result<u32, String> {
+    match self.b.tt.types.get(ty as usize).map(|t| &t.kind) {
+      Some(TyKind::Struct { n, .. }) => Ok(*n),
+      _ => Err(format!("type {ty} is not a struct type")),
+    }
+  }
+}
+
+impl Builder {
+  /// Compiles one expression/function body.  `n_results` is the arity of the implicit outer label.
+  fn compile(
+    &mut self,
+    mut ops: OperatorsReader<'_>,
+    n_locals: u32,
+    n_results: u32,
+  ) -> Result<Body, String> {
+    use Operator as O;
+    let entry = self.code.len() as u32;
+    let mut c =
+      Fc { b: self, ctrls: Vec::new(), h: 0, max_h: 0, n_locals, live: true, dead_depth: 0 };
+    c.push_ctrl(CK::Func, 0, n_results)?;
+    while !ops.eof() {
+      let op = ops.read().map_err(|e| format!("malformed code: {e}"))?;
+      if c.ctrls.is_empty() {
+        return Err("operators after the final end".into());
+      }
+      if !c.live {
+        match &op {
+          O::Block { .. } | O::Loop { .. } | O::If { .. } => {
+            c.dead_depth += 1;
+            continue;
+          }
+          O::TryTable { .. } | O::Try { .. } => {
+            return Err(format!("unsupported opcode: {op:?}"));
+          }
+          O::End if c.dead_depth > 0 => {
+            c.dead_depth -= 1;
+            continue;
+          }
+          O::Else if c.dead_depth > 0 => continue,
+          O::End | O::Else => {}
+          _ => continue,
+        }
+      }
+      match op {
+        O::Unreachable => {
+          c.emit(Op::Unreachable, 0, 0)?;
+          c.dead();
+        }
+        O::Nop => {}
+        O::Block { blockty } => {
+          let (p, r) = c.block_sig(blockty)?;
+          c.push_ctrl(CK::Block, p, r)?;
+        }
+        O::Loop { blockty } => {
+          let (p, r) = c.block_sig(blockty)?;
+          c.push_ctrl(CK::Loop, p, r)?;
+        }
+        O::If { blockty } => {
+          let (p, r) = c.block_sig(blockty)?;
+          c.pop(1)?;
+          let at = c.b.code.len();
+          c.b.code.push(Op::JmpIfZ(0));
+          c.push_ctrl(CK::If, p, r)?;
+          c.ctrls.last_mut().unwrap().else_fix = Some(at);
+        }
+        O::Else => {
+          if c.live {
+            let at = c.b.code.len();
+            c.b.code.push(Op::Jump(0));
+            c.ctrls.last_mut().unwrap().fixups.push(Fix::Code(at));
+          }
+          let here = c.b.code.len() as u32;
+          let top = c.ctrls.last_mut().unwrap();
+          let ef = top.else_fix.take().ok_or("else without if")?;
+          let (h, p) = (top.height, top.n_params);
+          set_target(&mut c.b.code[ef], here);
+          c.h = h + p;
+          c.live = true;
+        }
+        O::End => {
+          let top = c.ctrls.pop().unwrap();
+          let here = c.b.code.len() as u32;
+          if let Some(ef) = top.else_fix {
+            set_target(&mut c.b.code[ef], here);
+          }
+          for f in top.fixups {
+            c.patch(f, here);
+          }
+          c.h = top.height + top.n_results;
+          if c.h > c.max_h {
+            c.max_h = c.h;
+          }
+          c.live = true;
+          if c.ctrls.is_empty() {
+            c.b.code.push(Op::Return(top.n_results));
+          }
+        }
+        O::Br { relative_depth } => {
+          c.emit_jump(relative_depth)?;
+          c.dead();
+        }
+        O::BrIf { relative_depth } => {
+          c.pop(1)?;
+          c.emit_cond(relative_depth, Op::JmpIfNz, Op::JmpIfZ)?;
+        }
+        O::BrTable { targets } => {
+          c.pop(1)?;
+          let mut depths = Vec::new();
+          for t in targets.targets() {
+            depths.push(t.map_err(|e| e.to_string())?);
+          }
+          depths.push(targets.default());
+          let base = c.b.br_tables.len() as u32;
+          for d in &depths {
+            let (ci, arity, lh, known) = c.label(*d)?;
+            let at = c.b.br_tables.len();
+            c.b.br_tables.push(BrEntry {
+              target: known.unwrap_or(0),
+              height: c.n_locals + lh,
+              arity,
+            });
+            if known.is_none() {
+              c.ctrls[ci].fixups.push(Fix::Table(at));
+            }
+          }
+          c.b.code.push(Op::BrTable { base, count: depths.len() as u32 });
+          c.dead();
+        }
+        O::Return => {
+          let r = c.ctrls[0].n_results;
+          c.emit(Op::Return(r), 0, 0)?;
+          c.dead();
+        }
+        O::Call { function_index } => {
+          let ty = *c.b.func_types.get(function_index as usize).ok_or("call: bad function index")?;
+          let (p, r) = c.func_sig(ty)?;
+          c.emit(Op::Call(function_index), p, r)?;
+        }
+        O::CallIndirect { type_index, table_index } => {
+          let (p, r) = c.func_sig(type_index)?;
+          c.emit(Op::CallIndirect { ty: type_index, table: table_index }, p + 1, r)?;
+        }
+        O::CallRef { type_index } => {
+          let (p, r) = c.func_sig(type_index)?;
+          c.emit(Op::CallRef, p + 1, r)?;
+        }
+        O::ReturnCall { function_index } => {
+          let ty = *c.b.func_types.get(function_index as usize).ok_or("call: bad function index")?;
+          let (p, _) = c.func_sig(ty)?;
+          c.emit(Op::RetCall(function_index), p, 0)?;
+          c.dead();
+        }
+        O::ReturnCallIndirect { type_index, table_index } => {
+          let (p, _) = c.func_sig(type_index)?;
+          c.emit(Op::RetCallIndirect { ty: type_index, table: table_index }, p + 1, 0)?;
+          c.dead();
+        }
+        O::ReturnCallRef { type_index } => {
+          let (p, _) = c.func_sig(type_index)?;
+          c.emit(Op::RetCallRef, p + 1, 0)?;
+          c.dead();
+        }
+        O::Drop => c.emit(Op::Drop, 1, 0)?,
+        O::Select | O::TypedSelect { .. } => c.emit(Op::Select, 3, 1)?,
+        O::LocalGet { local_index } => c.emit(Op::LocalGet(local_index), 0, 1)?,
+        O::LocalSet { local_index } => c.emit(Op::LocalSet(local_index), 1, 0)?,
+        O::LocalTee { local_index } => c.emit(Op::LocalTee(local_index), 1, 1)?,
+        O::GlobalGet { global_index } => c.emit(Op::GlobalGet(global_index), 0, 1)?,
+        O::GlobalSet { global_index } => c.emit(Op::GlobalSet(global_index), 1, 0)?,
+        O::I32Const { value } => c.emit(Op::Const(value as u32 as u64), 0, 1)?,
+        O::I64Const { value } => c.emit(Op::Const(value as u64), 0, 1)?,
+        O::RefNull { .. } => c.emit(Op::Const(0), 0, 1)?,
+        O::RefFunc { function_index } => {
+          c.emit(Op::Const(((function_index as u64) << 2) | 3), 0, 1)?
+        }
+        O::I32Eqz => c.emit(Op::I32Eqz, 1, 1)?,
+        O::I32Eq => c.emit(Op::I32Eq, 2, 1)?,
+        O::I32Ne => c.emit(Op::I32Ne, 2, 1)?,
+        O::I32LtS => c.emit(Op::I32LtS, 2, 1)?,
+        O::I32LtU => c.emit(Op::I32LtU, 2, 1)?,
+        O::I32GtS => c.emit(Op::I32GtS, 2, 1)?,
+        O::I32GtU => c.emit(Op::I32GtU, 2, 1)?,
+        O::I32LeS => c.emit(Op::I32LeS, 2, 1)?,
+        O::I32LeU => c.emit(Op::I32LeU, 2, 1)?,
+        O::I32GeS => c.emit(Op::I32GeS, 2, 1)?,
+        O::I32GeU => c.emit(Op::I32GeU, 2, 1)?,
+        O::I32Clz => c.emit(Op::I32Clz, 1, 1)?,
+        O::I32Ctz => c.emit(Op::I32Ctz, 1, 1)?,
+        O::I32Popcnt => c.emit(Op::I32Popcnt, 1, 1)?,
+        O::I32Add => c.emit(Op::I32Add, 2, 1)?,
+        O::I32Sub => c.emit(Op::I32Sub, 2, 1)?,
+        O::I32Mul => c.emit(Op::I32Mul, 2, 1)?,
+        O::I32DivS => c.emit(Op::I32DivS, 2, 1)?,
+        O::I32DivU => c.emit(Op::I32DivU, 2, 1)?,
+        O::I32RemS => c.emit(Op::I32RemS, 2, 1)?,
+        O::I32RemU => c.emit(Op::I32RemU, 2, 1)?,
+        O::I32And => c.emit(Op::I32And, 2, 1)?,
+        O::I32Or => c.emit(Op::I32Or, 2, 1)?,
+        O::I32Xor => c.emit(Op::I32Xor, 2, 1)?,
+        O::I32Shl => c.emit(Op::I32Shl, 2, 1)?,
+        O::I32ShrS => c.emit(Op::I32ShrS, 2, 1)?,
+        O::I32ShrU => c.emit(Op::I32ShrU, 2, 1)?,
+        O::I32Rotl => c.emit(Op::I32Rotl, 2, 1)?,
+        O::I32Rotr => c.emit(Op::I32Rotr, 2, 1)?,
+        O::I32Extend8S => c.emit(Op::I32Extend8S, 1, 1)?,
+        O::I32Extend16S => c.emit(Op::I32Extend16S, 1, 1)?,
+        O::I32WrapI64 => c.emit(Op::I32WrapI64, 1, 1)?,
+        O::I64Eqz => c.emit(Op::I64Eqz, 1, 1)?,
+        O::I64Eq => c.emit(Op::I64Eq, 2, 1)?,
+        O::I64Ne => c.emit(Op::I64Ne, 2, 1)?,
+        O::I64LtS => c.emit(Op::I64LtS, 2, 1)?,
+        O::I64LtU => c.emit(Op::I64LtU, 2, 1)?,
+        O::I64GtS => c.emit(Op::I64GtS, 2, 1)?,
+        O::I64GtU => c.emit(Op::I64GtU, 2, 1)?,
+        O::I64LeS => c.emit(Op::I64LeS, 2, 1)?,
+        O::I64LeU => c.emit(Op::I64LeU, 2, 1)?,
+        O::I64GeS => c.emit(Op::I64GeS, 2, 1)?,
+        O::I64GeU => c.emit(Op::I64GeU, 2, 1)?,
+        O::I64Clz => c.emit(Op::I64Clz, 1, 1)?,
+        O::I64Ctz => c.emit(Op::I64Ctz, 1, 1)?,
+        O::I64Popcnt => c.emit(Op::I64Popcnt, 1, 1)?,
+        O::I64Add => c.emit(Op::I64Add, 2, 1)?,
+        O::I64Sub => c.emit(Op::I64Sub, 2, 1)?,
+        O::I64Mul => c.emit(Op::I64Mul, 2, 1)?,
+        O::I64DivS => c.emit(Op::I64DivS, 2, 1)?,
+        O::I64DivU => c.emit(Op::I64DivU, 2, 1)?,
+        O::I64RemS => c.emit(Op::I64RemS, 2, 1)?,
+        O::I64RemU => c.emit(Op::I64RemU, 2, 1)?,
+        O::I64And => c.emit(Op::I64And, 2, 1)?,
+        O::I64Or => c.emit(Op::I64Or, 2, 1)?,
+        O::I64Xor => c.emit(Op::I64Xor, 2, 1)?,
+        O::I64Shl => c.emit(Op::I64Shl, 2, 1)?,
+        O::I64ShrS => c.emit(Op::I64ShrS, 2, 1)?,
+        O::I64ShrU => c.emit(Op::I64ShrU, 2, 1)?,
+        O::I64Rotl => c.emit(Op::I64Rotl, 2, 1)?,
+        O::I64Rotr => c.emit(Op::I64Rotr, 2, 1)?,
+        O::I64ExtendI32S => c.emit(Op::I64ExtendI32S, 1, 1)?,
+        O::I64ExtendI32U => c.emit(Op::I64ExtendI32U, 1, 1)?,
+        O::I64Extend8S => c.emit(Op::I64Extend8S, 1, 1)?,
+        O::I64Extend16S => c.emit(Op::I64Extend16S, 1, 1)?,
+        O::I64Extend32S => c.emit(Op::I64Extend32S, 1, 1)?,
+        O::RefIsNull => c.emit(Op::RefIsNull, 1, 1)?,
+        O::RefAsNonNull => c.emit(Op::RefAsNonNull, 1, 1)?,
+        O::RefEq => c.emit(Op::RefEq, 2, 1)?,
+        O::RefTestNonNull { hty } => c.emit(Op::RefTest(enc_ht(false, hty)?), 1, 1)?,
+        O::RefTestNullable { hty } => c.emit(Op::RefTest(enc_ht(true, hty)?), 1, 1)?,
+        O::RefCastNonNull { hty } => c.emit(Op::RefCast(enc_ht(false, hty)?), 1, 1)?,
+        O::RefCastNullable { hty } => c.emit(Op::RefCast(enc_ht(true, hty)?), 1, 1)?,
+        O::BrOnNull { relative_depth } => {
+          // null: ref is popped and the branch taken; otherwise the ref stays
+          c.pop(1)?;
+          let at = c.b.code.len();
+          if !c.needs_adjust(relative_depth)? {
+            let (ci, _, _, known) = c.label(relative_depth)?;
+            c.b.code.push(Op::JmpIfNull(known.unwrap_or(0)));
+            if known.is_none() {
+              c.ctrls[ci].fixups.push(Fix::Code(at));
+            }
+          } else {
+            c.b.code.push(Op::JmpIfNull(at as u32 + 2));
+            let j = c.b.code.len();
+            c.b.code.push(Op::Jump(0));
+            c.emit_jump(relative_depth)?;
+            let after = c.b.code.len() as u32;
+            set_target(&mut c.b.code[j], after);
+          }
+          c.push(1);
+        }
+        O::BrOnNonNull { relative_depth } => {
+          // non-null: branch taken with the ref as the last label value; otherwise it is popped
+          let at = c.b.code.len();
+          if !c.needs_adjust(relative_depth)? {
+            let (ci, _, _, known) = c.label(relative_depth)?;
+            c.b.code.push(Op::JmpIfNonNull(known.unwrap_or(0)));
+            if known.is_none() {
+              c.ctrls[ci].fixups.push(Fix::Code(at));
+            }
+          } else {
+            c.b.code.push(Op::JmpIfNonNull(at as u32 + 2));
+            let j = c.b.code.len();
+            c.b.code.push(Op::Jump(0));
+            c.emit_jump(relative_depth)?;
+            let after = c.b.code.len() as u32;
+            set_target(&mut c.b.code[j], after);
+          }
+          c.pop(1)?;
+        }
+        O::BrOnCast { relative_depth, to_ref_type, .. } => {
+          let ty = enc_rt(to_ref_type)?;
+          c.emit_cond(
+            relative_depth,
+            |t| Op::JmpIfCast { target: t, ty },
+            |t| Op::JmpIfNotCast { target: t, ty },
+          )?;
+        }
+        O::BrOnCastFail { relative_depth, to_ref_type, .. } => {
+          let ty = enc_rt(to_ref_type)?;
+          c.emit_cond(
+            relative_depth,
+            |t| Op::JmpIfNotCast { target: t, ty },
+            |t| Op::JmpIfCast { target: t, ty },
+          )?;
+        }
+        O::AnyConvertExtern | O::ExternConvertAny => {}
+        O::RefI31 => c.emit(Op::RefI31, 1, 1)?,
+        O::I31GetS => c.emit(Op::I31GetS, 1, 1)?,
+        O::I31GetU => c.emit(Op::I31GetU, 1, 1)?,
+        O::StructNew { struct_type_index } => {
+          let n = c.struct_n(struct_type_index)?;
+          c.emit(Op::StructNew { ty: struct_type_index, n }, n, 1)?;
+        }
+        O::StructNewDefault { struct_type_index } => {
+          let n = c.struct_n(struct_type_index)?;
+          c.emit(Op::StructNewDefault { ty: struct_type_index, n }, 0, 1)?;
+        }
+        O::StructGet { struct_type_index, field_index }
+        | O::StructGetU { struct_type_index, field_index } => {
+          c.struct_field(struct_type_index, field_index)?;
+          c.emit(Op::StructGet(field_index), 1, 1)?;
+        }
+        O::StructGetS { struct_type_index, field_index } => {
+          let (_, st) = c.struct_field(struct_type_index, field_index)?;
+          let op = match st {
+            Stor::I8 => Op::StructGetS8(field_index),
+            Stor::I16 => Op::StructGetS16(field_index),
+            Stor::Word => Op::StructGet(field_index),
+          };
+          c.emit(op, 1, 1)?;
+        }
+        O::StructSet { struct_type_index, field_index } => {
+          let (_, st) = c.struct_field(struct_type_index, field_index)?;
+          let op = match st {
+            Stor::I8 => Op::StructSet8(field_index),
+            Stor::I16 => Op::StructSet16(field_index),
+            Stor::Word => Op::StructSet(field_index),
+          };
+          c.emit(op, 2, 0)?;
+        }
+        O::ArrayNew { array_type_index } => {
+          c.array_kind(array_type_index)?;
+          c.emit(Op::ArrayNew(array_type_index), 2, 1)?;
+        }
+        O::ArrayNewDefault { array_type_index } => {
+          c.array_kind(array_type_index)?;
+          c.emit(Op::ArrayNewDefault(array_type_index), 1, 1)?;
+        }
+        O::ArrayNewFixed { array_type_index, array_size } => {
+          c.array_kind(array_type_index)?;
+          c.emit(Op::ArrayNewFixed { ty: array_type_index, n: array_size }, array_size, 1)?;
+        }
+        O::ArrayNewData { array_type_index, array_data_index } => {
+          c.array_kind(array_type_index)?;
+          c.emit(Op::ArrayNewData { ty: array_type_index, data: array_data_index }, 2, 1)?;
+        }
+        O::ArrayNewElem { array_type_index, array_elem_index } => {
+          c.array_kind(array_type_index)?;
+          c.emit(Op::ArrayNewElem { ty: array_type_index, elem: array_elem_index }, 2, 1)?;
+        }
+        O::ArrayGet { array_type_index } => {
+          c.array_kind(array_type_index)?;
+          c.emit(Op::ArrayGet, 2, 1)?;
+        }
+        O::ArrayGetS { array_type_index } => {
+          let op = match c.array_kind(array_type_index)?.0 {
+            Stor::I8 => Op::ArrayGetS8,
+            Stor::I16 => Op::ArrayGetS16,
+            Stor::Word => Op::ArrayGet,
+          };
+          c.emit(op, 2, 1)?;
+        }
+        O::ArrayGetU { array_type_index } => {
+          let op = match c.array_kind(array_type_index)?.0 {
+            Stor::I8 => Op::ArrayGetU8,
+            Stor::I16 => Op::ArrayGetU16,
+            Stor::Word => Op::ArrayGet,
+          };
+          c.emit(op, 2, 1)?;
+        }
+        O::ArraySet { array_type_index } => {
+          let op = match c.array_kind(array_type_index)?.0 {
+            Stor::I8 => Op::ArraySet8,
+            Stor::I16 => Op::ArraySet16,
+            Stor::Word => Op::ArraySet,
+          };
+          c.emit(op, 3, 0)?;
+        }
+        O::ArrayLen => c.emit(Op::ArrayLen, 1, 1)?,
+        O::ArrayFill { array_type_index } => {
+          let st = c.array_kind(array_type_index)?.0;
+          c.emit(Op::ArrayFill(st), 4, 0)?;
+        }
+        O::ArrayCopy { array_type_index_dst, .. } => {
+          let st = c.array_kind(array_type_index_dst)?.0;
+          c.emit(Op::ArrayCopy(st), 5, 0)?;
+        }
+        O::ArrayInitData { array_type_index, array_data_index } => {
+          c.array_kind(array_type_index)?;
+          c.emit(Op::ArrayInitData { ty: array_type_index, data: array_data_index }, 4, 0)?;
+        }
+        O::ArrayInitElem { array_elem_index, .. } => {
+          c.emit(Op::ArrayInitElem(array_elem_index), 4, 0)?;
+        }
+        O::TableGet { table } => c.emit(Op::TableGet(table), 1, 1)?,
+        O::TableSet { table } => c.emit(Op::TableSet(table), 2, 0)?,
+        O::TableSize { table } => c.emit(Op::TableSize(table), 0, 1)?,
+        O::TableGrow { table } => c.emit(Op::TableGrow(table), 2, 1)?,
+        O::TableFill { table } => c.emit(Op::TableFill(table), 3, 0)?,
+        O::TableCopy { dst_table, src_table } => {
+          c.emit(Op::TableCopy { dst: dst_table, src: src_table }, 3, 0)?
+        }
+        O::TableInit { elem_index, table } => {
+          c.emit(Op::TableInit { elem: elem_index, table }, 3, 0)?
+        }
+        O::ElemDrop { elem_index } => c.emit(Op::ElemDrop(elem_index), 0, 0)?,
+        O::DataDrop { data_index } => c.emit(Op::DataDrop(data_index), 0, 0)?,
+        other => return Err(format!("unsupported opcode: {other:?}")),
+      }
+    }
+    if !c.ctrls.is_empty() {
+      return Err("function body ended inside a block".into());
+    }
+    Ok(Body { entry, max_h: c.max_h })
+  }
+}
+
+// ---------------------------------------------------------------------------------------------
+// module decoding
+// ---------------------------------------------------------------------------------------------
+
+fn decode(wasm: &[u8]) -> Result<Module, String> {
+  let mut b = Builder {
+    tt: TypeTable { types: Vec::new(), canon: Vec::new(), groups: HashMap::new(), next_canon: 0 },
+    func_types: Vec::new(),
+    code: Vec::new(),
+    br_tables: Vec::new(),
+  };
+  let mut funcs: Vec<FuncInfo> = Vec::new();
+  // const expressions are compiled into pseudo functions, appended after the real ones
+  let mut pseudo: Vec<FuncInfo> = Vec::new();
+  let mut n_imports = 0usize;
+  let mut next_body = 0usize;
+  let mut global_inits = Vec::new();
+  let mut tables = Vec::new();
+  let mut elems = Vec::new();
+  let mut datas = Vec::new();
+  let mut exports = HashMap::new();
+  let mut start = None;
+  // pseudo function ids are provisional (offset by PSEUDO_BASE) until the function count is known
+  const PSEUDO_BASE: u32 = 1 << 30;
+
+  fn const_expr(
+    b: &mut Builder,
+    pseudo: &mut Vec<FuncInfo>,
+    ops: OperatorsReader<'_>,
+  ) -> Result<u32, String> {
+    let body = b.compile(ops, 0, 1)?;
+    pseudo.push(FuncInfo {
+      type_idx: u32::MAX,
+      entry: body.entry,
+      n_params: 0,
+      n_locals: 0,
+      n_results: 1,
+      frame_size: body.max_h + 2,
+      host: 0,
+    });
+    Ok(PSEUDO_BASE + pseudo.len() as u32 - 1)
+  }
+
+  for payload in Parser::new(0).parse_all(wasm) {
+    let payload = payload.map_err(|e| format!("malformed module: {e}"))?;
+    match payload {
+      Payload::Version { .. } => {}
+      Payload::TypeSection(r) => {
+        for g in r {
+          let g = g.map_err(|e| e.to_string())?;
+          b.tt.add_group(g.into_types().collect())?;
+        }
+      }
+      Payload::ImportSection(r) => {
+        for imp in r.into_imports() {
+          let imp = imp.map_err(|e| e.to_string())?;
+          match imp.ty {
+            TypeRef::Func(t) | TypeRef::FuncExact(t) => {
+              let host = match (imp.module, imp.name) {
+                ("builtins", "__Process$println") => HOST_PRINTLN,
+                ("builtins", "__Process$panic") => HOST_PANIC,
+                (m, n) => return Err(format!("unknown function import {m}.{n}")),
+              };
+              let (p, r) = match b.tt.types.get(t as usize).map(|x| &x.kind) {
+                Some(TyKind::Func { params, results }) => (*params, *results),
+                _ => return Err("import type is not a function".into()),
+              };
+              if p != 2 || r != 1 {
+                return Err(format!("import {} has an unexpected signature", imp.name));
+              }
+              b.func_types.push(t);
+              funcs.push(FuncInfo {
+                type_idx: t,
+                entry: 0,
+                n_params: p,
+                n_locals: p,
+                n_results: r,
+                frame_size: p,
+                host,
+              });
+              n_imports += 1;
+            }
+            other => return Err(format!("unsupported import {}.{}: {other:?}", imp.module, imp.name)),
+          }
+        }
+      }
+      Payload::FunctionSection(r) => {
+        for t in r {
+          let t = t.map_err(|e| e.to_string())?;
+          let (p, res) = match b.tt.types.get(t as usize).map(|x| &x.kind) {
+            Some(TyKind::Func { params, results }) => (*params, *results),
+            _ => return Err("function type index is not a function type".into()),
+          };
+          b.func_types.push(t);
+          funcs.push(FuncInfo {
+            type_idx: t,
+            entry: u32::MAX,
+            n_params: p,
+            n_locals: p,
+            n_results: res,
+            frame_size: 0,
+            host: 0,
+          });
+        }
+      }
+      Payload::TableSection(r) => {
+        for t in r {
+          let t = t.map_err(|e| e.to_string())?;
+          if t.ty.table64 || t.ty.shared {
+            return Err("table64/shared tables are not supported".into());
+          }
+          let init_fn = match t.init {
+            TableInit::RefNull => None,
+            TableInit::Expr(e) => Some(const_expr(&mut b, &mut pseudo, e.get_operators_reader())?),
+          };
+          tables.push(TableDef { initial: t.ty.initial, maximum: t.ty.maximum, init_fn });
+        }
+      }
+      Payload::MemorySection(r) => {
+        if r.count() > 0 {
+          return Err("linear memory is not supported by this interpreter".into());
+        }
+      }
+      Payload::TagSection(r) => {
+        if r.count() > 0 {
+          return Err("exception tags are not supported by this interpreter".into());
+        }
+      }
+      Payload::GlobalSection(r) => {
+        for g in r {
+          let g = g.map_err(|e| e.to_string())?;
+          global_inits.push(const_expr(&mut b, &mut pseudo, g.init_expr.get_operators_reader())?);
+        }
+      }
+      Payload::ExportSection(r) => {
+        for e in r {
+          let e = e.map_err(|e| e.to_string())?;
+          if matches!(e.kind, ExternalKind::Func | ExternalKind::FuncExact) {
+            exports.insert(e.name.to_string(), e.index);
+          }
+        }
+      }
+      Payload::StartSection { func, .. } => start = Some(func),
+      Payload::ElementSection(r) => {
+        for e in r {
+          let e = e.map_err(|e| e.to_string())?;
+          let mode = match e.kind {
+            ElementKind::Passive => ElemMode::Passive,
+            ElementKind::Declared => ElemMode::Declared,
+            ElementKind::Active { table_index, offset_expr } => ElemMode::Active {
+              table: table_index.unwrap_or(0),
+              offset_fn: const_expr(&mut b, &mut pseudo, offset_expr.get_operators_reader())?,
+            },
+          };
+          let mut items = Vec::new();
+          match e.items {
+            ElementItems::Functions(fs) => {
+              for f in fs {
+                items.push(ElemItem::Func(f.map_err(|e| e.to_string())?));
+              }
+            }
+            ElementItems::Expressions(_, es) => {
+              for x in es {
+                let x = x.map_err(|e| e.to_string())?;
+                items.push(ElemItem::Expr(const_expr(&mut b, &mut pseudo, x.get_operators_reader())?));
+              }
+            }
+          }
+          elems.push(ElemSeg { mode, items });
+        }
+      }
+      Payload::DataCountSection { .. } => {}
+      Payload::DataSection(r) => {
+        for d in r {
+          let d = d.map_err(|e| e.to_string())?;
+          match d.kind {
+            DataKind::Passive => datas.push(d.data.to_vec()),
+            DataKind::Active { .. } => {
+              return Err("active data segments (linear memory) are not supported".into())
+            }
+          }
+        }
+      }
+      Payload::CodeSectionStart { .. } => {}
+      Payload::CodeSectionEntry(body) => {
+        let fi = n_imports + next_body;
+        next_body += 1;
+        if fi >= funcs.len() {
+          return Err("more code entries than functions".into());
+        }
+        let mut n_locals = funcs[fi].n_params;
+        let mut lr = body.get_locals_reader().map_err(|e| e.to_string())?;
+        for _ in 0..lr.get_count() {
+          let (cnt, _ty) = lr.read().map_err(|e| e.to_string())?;
+          n_locals = n_locals.checked_add(cnt).ok_or("too many locals")?;
+        }
+        let ops = body.get_operators_reader().map_err(|e| e.to_string())?;
+        let compiled = b
+          .compile(ops, n_locals, funcs[fi].n_results)
+          .map_err(|e| format!("function {fi}: {e}"))?;
+        let f = &mut funcs[fi];
+        f.entry = compiled.entry;
+        f.n_locals = n_locals;
+        f.frame_size = n_locals + compiled.max_h + 2;
+      }
+      Payload::CustomSection(_) => {}
+      Payload::End(_) => {}
+      other => return Err(format!("unsupported module section: {other:?}")),
+    }
+  }
+  if n_imports + next_body != funcs.len() {
+    return Err("function and code section lengths differ".into());
+  }
+  let n_real = funcs.len() as u32;
+  let fix = |id: u32| id - PSEUDO_BASE + n_real;
+  funcs.extend(pseudo);
+  for g in &mut global_inits {
+    *g = fix(*g);
+  }
+  for t in &mut tables {
+    t.init_fn = t.init_fn.map(fix);
+  }
+  for e in &mut elems {
+    if let ElemMode::Active { offset_fn, .. } = &mut e.mode {
+      *offset_fn = fix(*offset_fn);
+    }
+    for it in &mut e.items {
+      if let ElemItem::Expr(x) = it {
+        *x = fix(*x);
+      }
+    }
+  }
+  Ok(Module {
+    types: b.tt.types,
+    funcs,
+    code: b.code,
+    br_tables: b.br_tables,
+    global_inits,
+    tables,
+    elems,
+    datas,
+    exports,
+    start,
+  })
+}
+
+// ---------------------------------------------------------------------------------------------
+// machine
+// ---------------------------------------------------------------------------------------------
+
+enum Stop {
+  Trap(&'static str),
+  Panic(String),
+  /// fuel or arena exhausted
+  Budget,
+  /// a problem of the tool, not of the program
+  Tool(String),
+}
+
+enum Exit {
+  Done,
+  Host(u8),
+}
+
+#[derive(Clone, Copy)]
+struct Frame {
+  pc: u32,
+  fp: u32,
+}
+
+struct Table {
+  elems: Vec<u64>,
+  maximum: Option<u64>,
+}
+
+struct Machine<'m> {
+  m: &'m Module,
+  stack: Vec<u64>,
+  sp: usize,
+  fp: usize,
+  pc: usize,
+  frames: Vec<Frame>,
+  heap: Vec<u64>,
+  heap_limit: usize,
+  globals: Vec<u64>,
+  tables: Vec<Table>,
+  elems: Vec<Vec<u64>>,
+  datas: Vec<&'m [u8]>,
+  out: Vec<String>,
+  fuel: u64,
+  str_len: Option<u32>,
+  str_get: Option<u32>,
+}
+
+#[inline(always)]
+fn pk_words(st: Stor, len: usize) -> usize {
+  match st {
+    Stor::I8 => (len + 7) / 8,
+    Stor::I16 => (len + 3) / 4,
+    Stor::Word => len,
+  }
+}
+
+/// `base` = index of the first payload word
+#[inline(always)]
+fn pk_get(heap: &[u64], base: usize, st: Stor, i: usize) -> u64 {
+  match st {
+    Stor::I8 => (heap[base + (i >> 3)] >> ((i & 7) * 8)) & 0xff,
+    Stor::I16 => (heap[base + (i >> 2)] >> ((i & 3) * 16)) & 0xffff,
+    Stor::Word => heap[base + i],
+  }
+}
+
+#[inline(always)]
+fn pk_set(heap: &mut [u64], base: usize, st: Stor, i: usize, v: u64) {
+  match st {
+    Stor::I8 => {
+      let sh = (i & 7) * 8;
+      let w = &mut heap[base + (i >> 3)];
+      *w = (*w & !(0xffu64 << sh)) | ((v & 0xff) << sh);
+    }
+    Stor::I16 => {
+      let sh = (i & 3) * 16;
+      let w = &mut heap[base + (i >> 2)];
+      *w = (*w & !(0xffffu64 << sh)) | ((v & 0xffff) << sh);
+    }
+    Stor::Word => heap[base + i] = v,
+  }
+}
+
+#[inline]
+fn alloc(heap: &mut Vec<u64>, limit: usize, ty: u32, len: u32, words: usize) -> Result<usize, Stop> {
+  let o = heap.len();
+  if o + 1 + words > limit {
+    return Err(Stop::Budget);
+  }
+  heap.push(((len as u64) << 32) | ty as u64);
+  heap.resize(o + 1 + words, 0);
+  Ok(o)
+}
+
+fn new_array(heap: &mut Vec<u64>, limit: usize, ty: u32, st: Stor, len: u32) -> Result<usize, Stop> {
+  let words = pk_words(st, len as usize);
+  if words > MAX_ARRAY_WORDS {
+    return Err(Stop::Trap("requested new array is too large"));
+  }
+  alloc(heap, limit, ty, len, words)
+}
+
+#[inline(always)]
+fn obj_ref(o: usize) -> u64 {
+  ((o as u64) << 2) | 2
+}
+
+const NULL_REF: &str = "null reference";
+const OOB: &str = "array out of bounds";
+const TABLE_OOB: &str = "out of bounds table access";
+
+impl<'m> Machine<'m> {
+  #[inline]
+  fn subtype(&self, a: usize, b: usize) -> bool {
+    if a == b {
+      return true;
+    }
+    let tb = &self.m.types[b];
+    let d = tb.supers.len() - 1;
+    let sa = &self.m.types[a].supers;
+    sa.len() > d && sa[d] == tb.canon
+  }
+
+  fn ref_matches(&self, v: u64, enc: u32) -> bool {
+    if v == 0 {
+      return enc & T_NULLABLE != 0;
+    }
+    let tag = v & 3;
+    if enc & T_CONCRETE != 0 {
+      let t = (enc & T_MASK) as usize;
+      let vt = match tag {
+        2 => (self.heap[(v >> 2) as usize] & 0xffff_ffff) as usize,
+        3 => {
+          let ft = self.m.funcs[(v >> 2) as usize].type_idx;
+          if ft == u32::MAX {
+            return false;
+          }
+          ft as usize
+        }
+        _ => return false,
+      };
+      self.subtype(vt, t)
+    } else {
+      match enc & T_MASK {
+        A_ANY | A_EQ => tag == 1 || tag == 2,
+        A_I31 => tag == 1,
+        A_STRUCT => {
+          tag == 2
+            && matches!(
+              self.m.types[(self.heap[(v >> 2) as usize] & 0xffff_ffff) as usize].kind,
+              TyKind::Struct { .. }
+            )
+        }
+        A_ARRAY => {
+          tag == 2
+            && matches!(
+              self.m.types[(self.heap[(v >> 2) as usize] & 0xffff_ffff) as usize].kind,
+              TyKind::Array { .. }
+            )
+        }
+        A_FUNC => tag == 3,
+        A_EXTERN => true,
+        _ => false, // none, nofunc, noextern
+      }
+    }
+  }
+
+  fn array_kind(&self, ty: u32) -> (Stor, u32) {
+    match &self.m.types[ty as usize].kind {
+      TyKind::Array { elem, bytes } => (*elem, *bytes),
+      _ => (Stor::Word, 0),
+    }
+  }
+
+  /// Pushes a frame for `f` with `args` on top of the current stack and runs it to completion.
+  fn invoke(&mut self, f: u32, args: &[u64]) -> Result<Option<u64>, Stop> {
+    let m = self.m;
+    let fi = &m.funcs[f as usize];
+    if fi.host != 0 {
+      return Err(Stop::Tool("cannot invoke a host import directly".into()));
+    }
+    if args.len() != fi.n_params as usize {
+      return Err(Stop::Tool(format!("function {f} expects {} arguments", fi.n_params)));
+    }
+    if self.frames.len() >= MAX_DEPTH {
+      return Err(Stop::Trap("call stack exhausted"));
+    }
+    let base = self.frames.len();
+    self.frames.push(Frame { pc: self.pc as u32, fp: self.fp as u32 });
+    let fp = self.sp;
+    let need = fp + (fi.frame_size.max(fi.n_results) as usize) + 1;
+    if self.stack.len() < need {
+      self.stack.resize(need.max(self.stack.len() * 2), 0);
+    }
+    self.stack[fp..fp + args.len()].copy_from_slice(args);
+    for s in &mut self.stack[fp + args.len()..fp + fi.n_locals as usize] {
+      *s = 0;
+    }
+    self.fp = fp;
+    self.sp = fp + fi.n_locals as usize;
+    self.pc = fi.entry as usize;
+    self.run_until(base)?;
+    let nr = fi.n_results as usize;
+    let r = if nr > 0 { Some(self.stack[self.sp - nr]) } else { None };
+    self.sp -= nr;
+    Ok(r)
+  }
+
+  fn run_until(&mut self, base: usize) -> Result<(), Stop> {
+    loop {
+      match self.exec(base)? {
+        Exit::Done => return Ok(()),
+        Exit::Host(h) => self.host_call(h)?,
+      }
+    }
+  }
+
+  /// loader.js: gcArrayToString — length via `__strLen`, every code via `__strGet`,
+  /// then String.fromCharCode(...codes) (ToUint16 of each code).
+  fn gc_array_to_string(&mut self, arr: u64) -> Result<String, Stop> {
+    let (sl, sg) = match (self.str_len, self.str_get) {
+      (Some(a), Some(b)) => (a, b),
+      _ => return Err(Stop::Tool("module does not export __strLen/__strGet".into())),
+    };
+    let len = self.invoke(sl, &[arr])?.unwrap_or(0) as u32 as i32;
+    let mut units: Vec<u16> = Vec::with_capacity(len.max(0) as usize);
+    let mut i: i32 = 0;
+    while i < len {
+      let code = self.invoke(sg, &[arr, i as u32 as u64])?.unwrap_or(0) as u32 as i32;
+      units.push(code as u16);
+      i += 1;
+    }
+    Ok(String::from_utf16_lossy(&units))
+  }
+
+  fn host_call(&mut self, h: u8) -> Result<(), Stop> {
+    // both imports: (param (ref eq)) (param (ref $_Str)) (result i32)
+    let arr = self.stack[self.sp - 1];
+    self.sp -= 2;
+    let text = self.gc_array_to_string(arr)?;
+    match h {
+      HOST_PRINTLN => {
+        self.out.push(text);
+        self.stack[self.sp] = 0;
+        self.sp += 1;
+        Ok(())
+      }
+      HOST_PANIC => Err(Stop::Panic(text)),
+      _ => Err(Stop::Tool("unknown host function".into())),
+    }
+  }
+
+  fn instantiate(&mut self) -> Result<(), Stop> {
+    let m = self.m;
+    for g in &m.global_inits {
+      let v = self.invoke(*g, &[])?.unwrap_or(0);
+      self.globals.push(v);
+    }
+    for t in &m.tables {
+      if t.initial as usize > MAX_TABLE {
+        return Err(Stop::Tool("table too large".into()));
+      }
+      let init = match t.init_fn {
+        None => 0,
+        Some(f) => self.invoke(f, &[])?.unwrap_or(0),
+      };
+      self.tables.push(Table { elems: vec![init; t.initial as usize], maximum: t.maximum });
+    }
+    for e in &m.elems {
+      let mut items = Vec::with_capacity(e.items.len());
+      for it in &e.items {
+        items.push(match it {
+          ElemItem::Func(f) => ((*f as u64) << 2) | 3,
+          ElemItem::Expr(x) => self.invoke(*x, &[])?.unwrap_or(0),
+        });
+      }
+      self.elems.push(items);
+    }
+    for (i, e) in m.elems.iter().enumerate() {
+      match e.mode {
+        ElemMode::Passive => {}
+        ElemMode::Declared => self.elems[i] = Vec::new(),
+        ElemMode::Active { table, offset_fn } => {
+          let off = self.invoke(offset_fn, &[])?.unwrap_or(0) as u32 as usize;
+          let items = std::mem::take(&mut self.elems[i]);
+          let t = self
+            .tables
+            .get_mut(table as usize)
+            .ok_or_else(|| Stop::Tool("element segment for an unknown table".into()))?;
+          if off + items.len() > t.elems.len() {
+            return Err(Stop::Trap(TABLE_OOB));
+          }
+          t.elems[off..off + items.len()].copy_from_slice(&items);
+        }
+      }
+    }
+    if let Some(s) = m.start {
+      self.invoke(s, &[])?;
+    }
+    Ok(())
+  }
+}
+
+impl<'m> Machine<'m> {
+  /// Runs from (pc, fp, sp) until the frame stack shrinks to `base` (Done) or a host import is
+  /// called (Host; its arguments are on top of the stack and the state is saved in self).
+  fn exec(&mut self, base: usize) -> Result<Exit, Stop> {
+    let m: &'m Module = self.m;
+    let code: &[Op] = &m.code;
+    let mut pc = self.pc;
+    let mut fp = self.fp;
+    let mut sp = self.sp;
+    let mut fuel = self.fuel;
+    let limit = self.heap_limit;
+
+    macro_rules! trap {
+      ($s:expr) => {
+        return Err(Stop::Trap($s))
+      };
+    }
+    macro_rules! un32 {
+      ($st:expr, $sp:expr, |$a:ident| $e:expr) => {{
+        let $a = $st[$sp - 1] as u32 as i32;
+        let r: i32 = $e;
+        $st[$sp - 1] = r as u32 as u64;
+      }};
+    }
+    macro_rules! bin32 {
+      ($st:expr, $sp:expr, |$a:ident, $b:ident| $e:expr) => {{
+        let $b = $st[$sp - 1] as u32 as i32;
+        let $a = $st[$sp - 2] as u32 as i32;
+        $sp -= 1;
+        let r: i32 = $e;
+        $st[$sp - 1] = r as u32 as u64;
+      }};
+    }
+    macro_rules! cmp32 {
+      ($st:expr, $sp:expr, |$a:ident, $b:ident| $e:expr) => {{
+        let $b = $st[$sp - 1] as u32 as i32;
+        let $a = $st[$sp - 2] as u32 as i32;
+        $sp -= 1;
+        let r: bool = $e;
+        $st[$sp - 1] = r as u64;
+      }};
+    }
+    macro_rules! un64 {
+      ($st:expr, $sp:expr, |$a:ident| $e:expr) => {{
+        let $a = $st[$sp - 1] as i64;
+        let r: i64 = $e;
+        $st[$sp - 1] = r as u64;
+      }};
+    }
+    macro_rules! bin64 {
+      ($st:expr, $sp:expr, |$a:ident, $b:ident| $e:expr) => {{
+        let $b = $st[$sp - 1] as i64;
+        let $a = $st[$sp - 2] as i64;
+        $sp -= 1;
+        let r: i64 = $e;
+        $st[$sp - 1] = r as u64;
+      }};
+    }
+    macro_rules! cmp64 {
+      ($st:expr, $sp:expr, |$a:ident, $b:ident| $e:expr) => {{
+        let $b = $st[$sp - 1] as i64;
+        let $a = $st[$sp - 2] as i64;
+        $sp -= 1;
+        let r: bool = $e;
+        $st[$sp - 1] = r as u64;
+      }};
+    }
+
+    'run: loop {
+      if fuel == 0 {
+        self.fuel = 0;
+        return Err(Stop::Budget);
+      }
+      fuel -= 1;
+      let op = code[pc];
+      pc += 1;
+      let (callee, tail): (usize, bool) = 'call: {
+        match op {
+        Op::Unreachable => trap!("unreachable"),
+        Op::Jump(t) => {
+          pc = t as usize;
+          continue 'run;
+        }
+        Op::JumpAdj { target, height, arity } => {
+          let dst = fp + height as usize;
+          let n = arity as usize;
+          self.stack.copy_within(sp - n..sp, dst);
+          sp = dst + n;
+          pc = target as usize;
+          continue 'run;
+        }
+        Op::JmpIfZ(t) => {
+          sp -= 1;
+          if self.stack[sp] as u32 == 0 {
+            pc = t as usize;
+          }
+          continue 'run;
+        }
+        Op::JmpIfNz(t) => {
+          sp -= 1;
+          if self.stack[sp] as u32 != 0 {
+            pc = t as usize;
+          }
+          continue 'run;
+        }
+        Op::JmpIfNull(t) => {
+          if self.stack[sp - 1] == 0 {
+            sp -= 1;
+            pc = t as usize;
+          }
+          continue 'run;
+        }
+        Op::JmpIfNonNull(t) => {
+          if self.stack[sp - 1] != 0 {
+            pc = t as usize;
+          } else {
+            sp -= 1;
+          }
+          continue 'run;
+        }
+        Op::JmpIfCast { target, ty } => {
+          if self.ref_matches(self.stack[sp - 1], ty) {
+            pc = target as usize;
+          }
+          continue 'run;
+        }
+        Op::JmpIfNotCast { target, ty } => {
+          if !self.ref_matches(self.stack[sp - 1], ty) {
+            pc = target as usize;
+          }
+          continue 'run;
+        }
+        Op::BrTable { base: tb, count } => {
+          sp -= 1;
+          let i = self.stack[sp] as u32;
+          let k = if i < count - 1 { i } else { count - 1 };
+          let e = m.br_tables[(tb + k) as usize];
+          let dst = fp + e.height as usize;
+          let n = e.arity as usize;
+          self.stack.copy_within(sp - n..sp, dst);
+          sp = dst + n;
+          pc = e.target as usize;
+          continue 'run;
+        }
+        Op::Return(n) => {
+          let n = n as usize;
+          self.stack.copy_within(sp - n..sp, fp);
+          sp = fp + n;
+          let fr = self.frames.pop().expect("frame underflow");
+          pc = fr.pc as usize;
+          fp = fr.fp as usize;
+          if self.frames.len() == base {
+            self.pc = pc;
+            self.fp = fp;
+            self.sp = sp;
+            self.fuel = fuel;
+            return Ok(Exit::Done);
+          }
+          continue 'run;
+        }
+        Op::Call(f) => break 'call (f as usize, false),
+        Op::RetCall(f) => break 'call (f as usize, true),
+        Op::CallIndirect { ty, table } | Op::RetCallIndirect { ty, table } => {
+          sp -= 1;
+          let i = self.stack[sp] as u32 as usize;
+          let t = &self.tables[table as usize];
+          if i >= t.elems.len() {
+            trap!("undefined element");
+          }
+          let r = t.elems[i];
+          if r == 0 {
+            trap!("uninitialized element");
+          }
+          let f = (r >> 2) as usize;
+          let ft = m.funcs[f].type_idx;
+          if ft != ty && (ft == u32::MAX || !self.subtype(ft as usize, ty as usize)) {
+            trap!("indirect call signature mismatch");
+          }
+          break 'call (f, matches!(op, Op::RetCallIndirect { .. }));
+        }
+        Op::CallRef | Op::RetCallRef => {
+          sp -= 1;
+          let r = self.stack[sp];
+          if r == 0 {
+            trap!(NULL_REF);
+          }
+          break 'call ((r >> 2) as usize, matches!(op, Op::RetCallRef));
+        }
+        Op::Drop => {
+          sp -= 1;
+          continue 'run;
+        }
+        Op::Select => {
+          let c = self.stack[sp - 1] as u32;
+          let b = self.stack[sp - 2];
+          sp -= 2;
+          if c == 0 {
+            self.stack[sp - 1] = b;
+          }
+          continue 'run;
+        }
+        Op::LocalGet(i) => {
+          self.stack[sp] = self.stack[fp + i as usize];
+          sp += 1;
+          continue 'run;
+        }
+        Op::LocalSet(i) => {
+          sp -= 1;
+          self.stack[fp + i as usize] = self.stack[sp];
+          continue 'run;
+        }
+        Op::LocalTee(i) => {
+          self.stack[fp + i as usize] = self.stack[sp - 1];
+          continue 'run;
+        }
+        Op::GlobalGet(i) => {
+          self.stack[sp] = self.globals[i as usize];
+          sp += 1;
+          continue 'run;
+        }
+        Op::GlobalSet(i) => {
+          sp -= 1;
+          self.globals[i as usize] = self.stack[sp];
+          continue 'run;
+        }
+        Op::Const(v) => {
+          self.stack[sp] = v;
+          sp += 1;
+          continue 'run;
+        }
+        // ---- i32 ----
+        Op::I32Eqz => {
+          self.stack[sp - 1] = (self.stack[sp - 1] as u32 == 0) as u64;
+          continue 'run;
+        }
+        Op::I32Eq => cmp32!(self.stack, sp, |a, b| a == b),
+        Op::I32Ne => cmp32!(self.stack, sp, |a, b| a != b),
+        Op::I32LtS => cmp32!(self.stack, sp, |a, b| a < b),
+        Op::I32LtU => cmp32!(self.stack, sp, |a, b| (a as u32) < (b as u32)),
+        Op::I32GtS => cmp32!(self.stack, sp, |a, b| a > b),
+        Op::I32GtU => cmp32!(self.stack, sp, |a, b| (a as u32) > (b as u32)),
+        Op::I32LeS => cmp32!(self.stack, sp, |a, b| a <= b),
+        Op::I32LeU => cmp32!(self.stack, sp, |a, b| (a as u32) <= (b as u32)),
+        Op::I32GeS => cmp32!(self.stack, sp, |a, b| a >= b),
+        Op::I32GeU => cmp32!(self.stack, sp, |a, b| (a as u32) >= (b as u32)),
+        Op::I32Clz => un32!(self.stack, sp, |a| a.leading_zeros() as i32),
+        Op::I32Ctz => un32!(self.stack, sp, |a| a.trailing_zeros() as i32),
+        Op::I32Popcnt => un32!(self.stack, sp, |a| a.count_ones() as i32),
+        Op::I32Add => bin32!(self.stack, sp, |a, b| a.wrapping_add(b)),
+        Op::I32Sub => bin32!(self.stack, sp, |a, b| a.wrapping_sub(b)),
+        Op::I32Mul => bin32!(self.stack, sp, |a, b| a.wrapping_mul(b)),
+        Op::I32DivS => {
+          let b = self.stack[sp - 1] as u32 as i32;
+          let a = self.stack[sp - 2] as u32 as i32;
+          if b == 0 {
+            trap!("integer divide by zero");
+          }
+          if a == i32::MIN && b == -1 {
+            trap!("integer overflow");
+          }
+          sp -= 1;
+          self.stack[sp - 1] = (a / b) as u32 as u64;
+        }
+        Op::I32DivU => {
+          let b = self.stack[sp - 1] as u32;
+          let a = self.stack[sp - 2] as u32;
+          if b == 0 {
+            trap!("integer divide by zero");
+          }
+          sp -= 1;
+          self.stack[sp - 1] = (a / b) as u64;
+        }
+        Op::I32RemS => {
+          let b = self.stack[sp - 1] as u32 as i32;
+          let a = self.stack[sp - 2] as u32 as i32;
+          if b == 0 {
+            trap!("integer divide by zero");
+          }
+          sp -= 1;
+          self.stack[sp - 1] = a.wrapping_rem(b) as u32 as u64;
+        }
+        Op::I32RemU => {
+          let b = self.stack[sp - 1] as u32;
+          let a = self.stack[sp - 2] as u32;
+          if b == 0 {
+            trap!("integer divide by zero");
+          }
+          sp -= 1;
+          self.stack[sp - 1] = (a % b) as u64;
+        }
+        Op::I32And => bin32!(self.stack, sp, |a, b| a & b),
+        Op::I32Or => bin32!(self.stack, sp, |a, b| a | b),
+        Op::I32Xor => bin32!(self.stack, sp, |a, b| a ^ b),
+        Op::I32Shl => bin32!(self.stack, sp, |a, b| a.wrapping_shl(b as u32)),
+        Op::I32ShrS => bin32!(self.stack, sp, |a, b| a.wrapping_shr(b as u32)),
+        Op::I32ShrU => bin32!(self.stack, sp, |a, b| (a as u32).wrapping_shr(b as u32) as i32),
+        Op::I32Rotl => bin32!(self.stack, sp, |a, b| (a as u32).rotate_left(b as u32 & 31) as i32),
+        Op::I32Rotr => bin32!(self.stack, sp, |a, b| (a as u32).rotate_right(b as u32 & 31) as i32),
+        Op::I32Extend8S => un32!(self.stack, sp, |a| a as i8 as i32),
+        Op::I32Extend16S => un32!(self.stack, sp, |a| a as i16 as i32),
+        Op::I32WrapI64 => {
+          self.stack[sp - 1] = self.stack[sp - 1] as u32 as u64;
+        }
+        // ---- i64 ----
+        Op::I64Eqz => {
+          self.stack[sp - 1] = (self.stack[sp - 1] == 0) as u64;
+        }
+        Op::I64Eq => cmp64!(self.stack, sp, |a, b| a == b),
+        Op::I64Ne => cmp64!(self.stack, sp, |a, b| a != b),
+        Op::I64LtS => cmp64!(self.stack, sp, |a, b| a < b),
+        Op::I64LtU => cmp64!(self.stack, sp, |a, b| (a as u64) < (b as u64)),
+        Op::I64GtS => cmp64!(self.stack, sp, |a, b| a > b),
+        Op::I64GtU => cmp64!(self.stack, sp, |a, b| (a as u64) > (b as u64)),
+        Op::I64LeS => cmp64!(self.stack, sp, |a, b| a <= b),
+        Op::I64LeU => cmp64!(self.stack, sp, |a, b| (a as u64) <= (b as u64)),
+        Op::I64GeS => cmp64!(self.stack, sp, |a, b| a >= b),
+        Op::I64GeU => cmp64!(self.stack, sp, |a, b| (a as u64) >= (b as u64)),
+        Op::I64Clz => un64!(self.stack, sp, |a| a.leading_zeros() as i64),
+        Op::I64Ctz => un64!(self.stack, sp, |a| a.trailing_zeros() as i64),
+        Op::I64Popcnt => un64!(self.stack, sp, |a| a.count_ones() as i64),
+        Op::I64Add => bin64!(self.stack, sp, |a, b| a.wrapping_add(b)),
+        Op::I64Sub => bin64!(self.stack, sp, |a, b| a.wrapping_sub(b)),
+        Op::I64Mul => bin64!(self.stack, sp, |a, b| a.wrapping_mul(b)),
+        Op::I64DivS => {
+          let b = self.stack[sp - 1] as i64;
+          let a = self.stack[sp - 2] as i64;
+          if b == 0 {
+            trap!("integer divide by zero");
+          }
+          if a == i64::MIN && b == -1 {
+            trap!("integer overflow");
+          }
+          sp -= 1;
+          self.stack[sp - 1] = (a / b) as u64;
+        }
+        Op::I64DivU => {
+          let b = self.stack[sp - 1];
+          let a = self.stack[sp - 2];
+          if b == 0 {
+            trap!("integer divide by zero");
+          }
+          sp -= 1;
+          self.stack[sp - 1] = a / b;
+        }
+        Op::I64RemS => {
+          let b = self.stack[sp - 1] as i64;
+          let a = self.stack[sp - 2] as i64;
+          if b == 0 {
+            trap!("integer divide by zero");
+          }
+          sp -= 1;
+          self.stack[sp - 1] = a.wrapping_rem(b) as u64;
+        }
+        Op::I64RemU => {
+          let b = self.stack[sp - 1];
+          let a = self.stack[sp - 2];
+          if b == 0 {
+            trap!("integer divide by zero");
+          }
+          sp -= 1;
+          self.stack[sp - 1] = a % b;
+        }
+        Op::I64And => bin64!(self.stack, sp, |a, b| a & b),
+        Op::I64Or => bin64!(self.stack, sp, |a, b| a | b),
+        Op::I64Xor => bin64!(self.stack, sp, |a, b| a ^ b),
+        Op::I64Shl => bin64!(self.stack, sp, |a, b| a.wrapping_shl(b as u32)),
+        Op::I64ShrS => bin64!(self.stack, sp, |a, b| a.wrapping_shr(b as u32)),
+        Op::I64ShrU => bin64!(self.stack, sp, |a, b| (a as u64).wrapping_shr(b as u32) as i64),
+        Op::I64Rotl => bin64!(self.stack, sp, |a, b| (a as u64).rotate_left(b as u32 & 63) as i64),
+        Op::I64Rotr => bin64!(self.stack, sp, |a, b| (a as u64).rotate_right(b as u32 & 63) as i64),
+        Op::I64ExtendI32S => {
+          self.stack[sp - 1] = self.stack[sp - 1] as u32 as i32 as i64 as u64;
+        }
+        Op::I64ExtendI32U => {
+          self.stack[sp - 1] = self.stack[sp - 1] as u32 as u64;
+        }
+        Op::I64Extend8S => un64!(self.stack, sp, |a| a as i8 as i64),
+        Op::I64Extend16S => un64!(self.stack, sp, |a| a as i16 as i64),
+        Op::I64Extend32S => un64!(self.stack, sp, |a| a as i32 as i64),
+        // ---- references ----
+        Op::RefIsNull => {
+          self.stack[sp - 1] = (self.stack[sp - 1] == 0) as u64;
+        }
+        Op::RefAsNonNull => {
+          if self.stack[sp - 1] == 0 {
+            trap!(NULL_REF);
+          }
+        }
+        Op::RefEq => {
+          sp -= 1;
+          self.stack[sp - 1] = (self.stack[sp - 1] == self.stack[sp]) as u64;
+        }
+        Op::RefTest(ty) => {
+          self.stack[sp - 1] = self.ref_matches(self.stack[sp - 1], ty) as u64;
+        }
+        Op::RefCast(ty) => {
+          if !self.ref_matches(self.stack[sp - 1], ty) {
+            trap!("illegal cast");
+          }
+        }
+        Op::RefI31 => {
+          let v = self.stack[sp - 1] as u32;
+          self.stack[sp - 1] = (((v & 0x7fff_ffff) as u64) << 2) | 1;
+        }
+        Op::I31GetS => {
+          let r = self.stack[sp - 1];
+          if r == 0 {
+            trap!(NULL_REF);
+          }
+          let x = (r >> 2) as u32;
+          self.stack[sp - 1] = (((x << 1) as i32) >> 1) as u32 as u64;
+        }
+        Op::I31GetU => {
+          let r = self.stack[sp - 1];
+          if r == 0 {
+            trap!(NULL_REF);
+          }
+          self.stack[sp - 1] = ((r >> 2) as u32 & 0x7fff_ffff) as u64;
+        }
+        // ---- structs ----
+        Op::StructNew { ty, n } => {
+          let n = n as usize;
+          let o = alloc(&mut self.heap, limit, ty, n as u32, n)?;
+          self.heap[o + 1..o + 1 + n].copy_from_slice(&self.stack[sp - n..sp]);
+          if let TyKind::Struct { packed, .. } = &m.types[ty as usize].kind {
+            for (i, st) in packed {
+              let mask = if *st == Stor::I8 { 0xff } else { 0xffff };
+              self.heap[o + 1 + *i as usize] &= mask;
+            }
+          }
+          sp -= n;
+          self.stack[sp] = obj_ref(o);
+          sp += 1;
+        }
+        Op::StructNewDefault { ty, n } => {
+          let o = alloc(&mut self.heap, limit, ty, n, n as usize)?;
+          self.stack[sp] = obj_ref(o);
+          sp += 1;
+        }
+        Op::StructGet(f) => {
+          let r = self.stack[sp - 1];
+          if r == 0 {
+            trap!(NULL_REF);
+          }
+          self.stack[sp - 1] = self.heap[(r >> 2) as usize + 1 + f as usize];
+        }
+        Op::StructGetS8(f) => {
+          let r = self.stack[sp - 1];
+          if r == 0 {
+            trap!(NULL_REF);
+          }
+          self.stack[sp - 1] = self.heap[(r >> 2) as usize + 1 + f as usize] as i8 as i32 as u32 as u64;
+        }
+        Op::StructGetS16(f) => {
+          let r = self.stack[sp - 1];
+          if r == 0 {
+            trap!(NULL_REF);
+          }
+          self.stack[sp - 1] = self.heap[(r >> 2) as usize + 1 + f as usize] as i16 as i32 as u32 as u64;
+        }
+        Op::StructSet(f) | Op::StructSet8(f) | Op::StructSet16(f) => {
+          let v = self.stack[sp - 1];
+          let r = self.stack[sp - 2];
+          sp -= 2;
+          if r == 0 {
+            trap!(NULL_REF);
+          }
+          let v = match op {
+            Op::StructSet8(_) => v & 0xff,
+            Op::StructSet16(_) => v & 0xffff,
+            _ => v,
+          };
+          self.heap[(r >> 2) as usize + 1 + f as usize] = v;
+        }
+        // ---- arrays ----
+        Op::ArrayNew(ty) => {
+          let len = self.stack[sp - 1] as u32;
+          let init = self.stack[sp - 2];
+          sp -= 2;
+          let (st, _) = self.array_kind(ty);
+          let o = new_array(&mut self.heap, limit, ty, st, len)?;
+          let words = pk_words(st, len as usize);
+          let w = match st {
+            Stor::Word => init,
+            Stor::I8 => (init & 0xff).wrapping_mul(0x0101_0101_0101_0101),
+            Stor::I16 => (init & 0xffff).wrapping_mul(0x0001_0001_0001_0001),
+          };
+          if w != 0 {
+            self.heap[o + 1..o + 1 + words].fill(w);
+          }
+          self.stack[sp] = obj_ref(o);
+          sp += 1;
+        }
+        Op::ArrayNewDefault(ty) => {
+          let len = self.stack[sp - 1] as u32;
+          let (st, _) = self.array_kind(ty);
+          let o = new_array(&mut self.heap, limit, ty, st, len)?;
+          self.stack[sp - 1] = obj_ref(o);
+        }
+        Op::ArrayNewFixed { ty, n } => {
+          let (st, _) = self.array_kind(ty);
+          let o = new_array(&mut self.heap, limit, ty, st, n)?;
+          let n = n as usize;
+          for k in 0..n {
+            pk_set(&mut self.heap, o + 1, st, k, self.stack[sp - n + k]);
+          }
+          sp -= n;
+          self.stack[sp] = obj_ref(o);
+          sp += 1;
+        }
+        Op::ArrayNewData { ty, data } => {
+          let size = self.stack[sp - 1] as u32 as usize;
+          let off = self.stack[sp - 2] as u32 as usize;
+          sp -= 2;
+          let (st, bytes) = self.array_kind(ty);
+          let bytes = bytes as usize;
+          if bytes == 0 {
+            return Err(Stop::Tool("array.new_data on a non-numeric array".into()));
+          }
+          let d: &[u8] = self.datas[data as usize];
+          if off + size * bytes > d.len() {
+            trap!("data segment out of bounds");
+          }
+          let o = new_array(&mut self.heap, limit, ty, st, size as u32)?;
+          for k in 0..size {
+            let mut v = 0u64;
+            for j in 0..bytes {
+              v |= (d[off + k * bytes + j] as u64) << (8 * j);
+            }
+            pk_set(&mut self.heap, o + 1, st, k, v);
+          }
+          self.stack[sp] = obj_ref(o);
+          sp += 1;
+        }
+        Op::ArrayNewElem { ty, elem } => {
+          let size = self.stack[sp - 1] as u32 as usize;
+          let off = self.stack[sp - 2] as u32 as usize;
+          sp -= 2;
+          if off + size > self.elems[elem as usize].len() {
+            trap!("element segment out of bounds");
+          }
+          let o = new_array(&mut self.heap, limit, ty, Stor::Word, size as u32)?;
+          self.heap[o + 1..o + 1 + size].copy_from_slice(&self.elems[elem as usize][off..off + size]);
+          self.stack[sp] = obj_ref(o);
+          sp += 1;
+        }
+        Op::ArrayGet | Op::ArrayGetU8 | Op::ArrayGetS8 | Op::ArrayGetU16 | Op::ArrayGetS16 => {
+          let i = self.stack[sp - 1] as u32 as usize;
+          let r = self.stack[sp - 2];
+          sp -= 1;
+          if r == 0 {
+            trap!(NULL_REF);
+          }
+          let o = (r >> 2) as usize;
+          if i >= (self.heap[o] >> 32) as usize {
+            trap!(OOB);
+          }
+          self.stack[sp - 1] = match op {
+            Op::ArrayGet => self.heap[o + 1 + i],
+            Op::ArrayGetU8 => pk_get(&self.heap, o + 1, Stor::I8, i),
+            Op::ArrayGetS8 => pk_get(&self.heap, o + 1, Stor::I8, i) as i8 as i32 as u32 as u64,
+            Op::ArrayGetU16 => pk_get(&self.heap, o + 1, Stor::I16, i),
+            _ => pk_get(&self.heap, o + 1, Stor::I16, i) as i16 as i32 as u32 as u64,
+          };
+        }
+        Op::ArraySet | Op::ArraySet8 | Op::ArraySet16 => {
+          let v = self.stack[sp - 1];
+          let i = self.stack[sp - 2] as u32 as usize;
+          let r = self.stack[sp - 3];
+          sp -= 3;
+          if r == 0 {
+            trap!(NULL_REF);
+          }
+          let o = (r >> 2) as usize;
+          if i >= (self.heap[o] >> 32) as usize {
+            trap!(OOB);
+          }
+          match op {
+            Op::ArraySet => self.heap[o + 1 + i] = v,
+            Op::ArraySet8 => pk_set(&mut self.heap, o + 1, Stor::I8, i, v),
+            _ => pk_set(&mut self.heap, o + 1, Stor::I16, i, v),
+          }
+        }
+        Op::ArrayLen => {
+          let r = self.stack[sp - 1];
+          if r == 0 {
+            trap!(NULL_REF);
+          }
+          self.stack[sp - 1] = self.heap[(r >> 2) as usize] >> 32;
+        }
+        Op::ArrayFill(st) => {
+          let n = self.stack[sp - 1] as u32 as usize;
+          let v = self.stack[sp - 2];
+          let i = self.stack[sp - 3] as u32 as usize;
+          let r = self.stack[sp - 4];
+          sp -= 4;
+          if r == 0 {
+            trap!(NULL_REF);
+          }
+          let o = (r >> 2) as usize;
+          if i + n > (self.heap[o] >> 32) as usize {
+            trap!(OOB);
+          }
+          for k in i..i + n {
+            pk_set(&mut self.heap, o + 1, st, k, v);
+          }
+        }
+        Op::ArrayCopy(st) => {
+          let n = self.stack[sp - 1] as u32 as usize;
+          let si = self.stack[sp - 2] as u32 as usize;
+          let src = self.stack[sp - 3];
+          let di = self.stack[sp - 4] as u32 as usize;
+          let dst = self.stack[sp - 5];
+          sp -= 5;
+          if src == 0 || dst == 0 {
+            trap!(NULL_REF);
+          }
+          let so = (src >> 2) as usize;
+          let d_o = (dst >> 2) as usize;
+          if di + n > (self.heap[d_o] >> 32) as usize || si + n > (self.heap[so] >> 32) as usize {
+            trap!(OOB);
+          }
+          if st == Stor::Word {
+            self.heap.copy_within(so + 1 + si..so + 1 + si + n, d_o + 1 + di);
+          } else if so == d_o && di > si {
+            for k in (0..n).rev() {
+              let v = pk_get(&self.heap, so + 1, st, si + k);
+              pk_set(&mut self.heap, d_o + 1, st, di + k, v);
+            }
+          } else {
+            for k in 0..n {
+              let v = pk_get(&self.heap, so + 1, st, si + k);
+              pk_set(&mut self.heap, d_o + 1, st, di + k, v);
+            }
+          }
+        }
+        Op::ArrayInitData { ty, data } => {
+          let n = self.stack[sp - 1] as u32 as usize;
+          let si = self.stack[sp - 2] as u32 as usize;
+          let di = self.stack[sp - 3] as u32 as usize;
+          let r = self.stack[sp - 4];
+          sp -= 4;
+          if r == 0 {
+            trap!(NULL_REF);
+          }
+          let o = (r >> 2) as usize;
+          if di + n > (self.heap[o] >> 32) as usize {
+            trap!(OOB);
+          }
+          let (st, bytes) = self.array_kind(ty);
+          let bytes = bytes as usize;
+          let d: &[u8] = self.datas[data as usize];
+          if bytes == 0 || si + n * bytes > d.len() {
+            trap!("data segment out of bounds");
+          }
+          for k in 0..n {
+            let mut v = 0u64;
+            for j in 0..bytes {
+              v |= (d[si + k * bytes + j] as u64) << (8 * j);
+            }
+            pk_set(&mut self.heap, o + 1, st, di + k, v);
+          }
+        }
+        Op::ArrayInitElem(e) => {
+          let n = self.stack[sp - 1] as u32 as usize;
+          let si = self.stack[sp - 2] as u32 as usize;
+          let di = self.stack[sp - 3] as u32 as usize;
+          let r = self.stack[sp - 4];
+          sp -= 4;
+          if r == 0 {
+            trap!(NULL_REF);
+          }
+          let o = (r >> 2) as usize;
+          if di + n > (self.heap[o] >> 32) as usize {
+            trap!(OOB);
+          }
+          if si + n > self.elems[e as usize].len() {
+            trap!("element segment out of bounds");
+          }
+          self.heap[o + 1 + di..o + 1 + di + n].copy_from_slice(&self.elems[e as usize][si..si + n]);
+        }
+        // ---- tables ----
+        Op::TableGet(t) => {
+          let i = self.stack[sp - 1] as u32 as usize;
+          let t = &self.tables[t as usize];
+          if i >= t.elems.len() {
+            trap!(TABLE_OOB);
+          }
+          self.stack[sp - 1] = t.elems[i];
+        }
+        Op::TableSet(t) => {
+          let v = self.stack[sp - 1];
+          let i = self.stack[sp - 2] as u32 as usize;
+          sp -= 2;
+          let t = &mut self.tables[t as usize];
+          if i >= t.elems.len() {
+            trap!(TABLE_OOB);
+          }
+          t.elems[i] = v;
+        }
+        Op::TableSize(t) => {
+          self.stack[sp] = self.tables[t as usize].elems.len() as u64;
+          sp += 1;
+        }
+        Op::TableGrow(t) => {
+          let n = self.stack[sp - 1] as u32 as usize;
+          let v = self.stack[sp - 2];
+          sp -= 1;
+          let t = &mut self.tables[t as usize];
+          let old = t.elems.len();
+          let max = t.maximum.map(|x| x as usize).unwrap_or(MAX_TABLE).min(MAX_TABLE);
+          self.stack[sp - 1] = if old + n > max {
+            u32::MAX as u64
+          } else {
+            t.elems.resize(old + n, v);
+            old as u64
+          };
+        }
+        Op::TableFill(t) => {
+          let n = self.stack[sp - 1] as u32 as usize;
+          let v = self.stack[sp - 2];
+          let i = self.stack[sp - 3] as u32 as usize;
+          sp -= 3;
+          let t = &mut self.tables[t as usize];
+          if i + n > t.elems.len() {
+            trap!(TABLE_OOB);
+          }
+          t.elems[i..i + n].fill(v);
+        }
+        Op::TableCopy { dst, src } => {
+          let n = self.stack[sp - 1] as u32 as usize;
+          let s = self.stack[sp - 2] as u32 as usize;
+          let d = self.stack[sp - 3] as u32 as usize;
+          sp -= 3;
+          if s + n > self.tables[src as usize].elems.len() || d + n > self.tables[dst as usize].elems.len() {
+            trap!(TABLE_OOB);
+          }
+          if dst == src {
+            self.tables[dst as usize].elems.copy_within(s..s + n, d);
+          } else {
+            let tmp: Vec<u64> = self.tables[src as usize].elems[s..s + n].to_vec();
+            self.tables[dst as usize].elems[d..d + n].copy_from_slice(&tmp);
+          }
+        }
+        Op::TableInit { elem, table } => {
+          let n = self.stack[sp - 1] as u32 as usize;
+          let s = self.stack[sp - 2] as u32 as usize;
+          let d = self.stack[sp - 3] as u32 as usize;
+          sp -= 3;
+          if s + n > self.elems[elem as usize].len() || d + n > self.tables[table as usize].elems.len() {
+            trap!(TABLE_OOB);
+          }
+          self.tables[table as usize].elems[d..d + n].copy_from_slice(&self.elems[elem as usize][s..s + n]);
+        }
+        Op::ElemDrop(e) => {
+          self.elems[e as usize] = Vec::new();
+        }
+        Op::DataDrop(d) => {
+          self.datas[d as usize] = &[];
+        }
+        }
+        continue 'run;
+      };
+      // shared call sequence
+      {
+        let fi = &m.funcs[callee];
+        if fi.host != 0 {
+          if tail {
+            return Err(Stop::Tool("return_call of a host import is not supported".into()));
+          }
+          self.pc = pc;
+          self.fp = fp;
+          self.sp = sp;
+          self.fuel = fuel;
+          return Ok(Exit::Host(fi.host));
+        }
+        let np = fi.n_params as usize;
+        if tail {
+          self.stack.copy_within(sp - np..sp, fp);
+        } else {
+          if self.frames.len() >= MAX_DEPTH {
+            trap!("call stack exhausted");
+          }
+          self.frames.push(Frame { pc: pc as u32, fp: fp as u32 });
+          fp = sp - np;
+        }
+        let need = fp + fi.frame_size as usize;
+        if self.stack.len() < need {
+          let n = need.max(self.stack.len() * 2);
+          self.stack.resize(n, 0);
+        }
+        let nl = fi.n_locals as usize;
+        for s in &mut self.stack[fp + np..fp + nl] {
+          *s = 0;
+        }
+        sp = fp + nl;
+        pc = fi.entry as usize;
+      }
+    }
+  }
+}
+
+// ---------------------------------------------------------------------------------------------
+// entry points
+// ---------------------------------------------------------------------------------------------
+
+fn heap_limit() -> usize {
+  std::env::var("VH_WASM_HEAP_WORDS").ok().and_then(|s| s.parse().ok()).unwrap_or(DEFAULT_HEAP_WORDS)
+}
+
+fn run_module(m: &Module, main_fn: &str, fuel: u64) -> Result<Run, String> {
+  let main = *m.exports.get(main_fn).ok_or_else(|| format!("missing function export {main_fn}"))?;
+  let mi = m.funcs.get(main as usize).ok_or("export index out of range")?;
+  if mi.host != 0 || mi.n_params != 0 {
+    return Err(format!("export {main_fn} is not a zero-argument wasm function"));
+  }
+  let mut mach = Machine {
+    m,
+    stack: vec![0; 1 << 16],
+    sp: 0,
+    fp: 0,
+    pc: 0,
+    frames: Vec::with_capacity(1024),
+    heap: Vec::with_capacity(1 << 16),
+    heap_limit: heap_limit(),
+    globals: Vec::new(),
+    tables: Vec::new(),
+    elems: Vec::new(),
+    datas: m.datas.iter().map(|d| d.as_slice()).collect(),
+    out: Vec::new(),
+    fuel,
+    str_len: m.exports.get("__strLen").copied(),
+    str_get: m.exports.get("__strGet").copied(),
+  };
+  let r = match mach.instantiate() {
+    Ok(()) => mach.invoke(main, &[]).map(|_| ()),
+    Err(e) => Err(e),
+  };
+  let end = match r {
+    Ok(()) => End::Return,
+    Err(Stop::Trap(t)) => End::Trap { trap: t.to_string() },
+    Err(Stop::Panic(msg)) => End::Panic { msg },
+    Err(Stop::Budget) => End::Budget,
+    Err(Stop::Tool(e)) => return Err(e),
+  };
+  if std::env::var("VH_WASM_TIMING").is_ok() {
+    eprintln!("executed {} ops, heap {} words, stack {} slots", fuel - mach.fuel, mach.heap.len(), mach.stack.len());
+  }
+  Ok(Run { out: mach.out, end })
+}
+
+/// Instantiates the module and calls the exported zero-argument function `main_fn`.
+/// `Err` is reserved for tool problems (invalid module, unsupported opcode, missing export).
+pub fn run_wasm(wasm: &[u8], main_fn: &str, fuel: u64) -> Result<Run, String> {
+  let t0 = std::time::Instant::now();
+  validate_wasm(wasm)?;
+  let t1 = std::time::Instant::now();
+  let module = decode(wasm)?;
+  if std::env::var("VH_WASM_TIMING").is_ok() {
+    eprintln!("validate {:?} decode {:?} ops {}", t1 - t0, t1.elapsed(), module.code.len());
+  }
+  // The interpreter keeps its own frame stack; native recursion only happens for host -> export
+  // re-entry (println -> __strGet), but give it room anyway.
+  std::thread::scope(|s| {
+    std::thread::Builder::new()
+      .name("wasm-interp".into())
+      .stack_size(256 << 20)
+      .spawn_scoped(s, || run_module(&module, main_fn, fuel))
+      .map_err(|e| format!("cannot spawn interpreter thread: {e}"))?
+      .join()
+      .map_err(|_| "wasm interpreter panicked (internal error)".to_string())?
+  })
+}
+
+/// `vh wasm-run --wasm FILE --main NAME [--fuel N]`: prints the Run as one JSON line.
+pub fn main(args: &[String]) {
+  use crate::util::{arg, arg_or};
+  let (Some(path), Some(main_fn)) = (arg(args, "--wasm"), arg(args, "--main")) else {
+    eprintln!("usage: vh wasm-run --wasm FILE --main NAME [--fuel N]");
+    std::process::exit(2);
+  };
+  let fuel: u64 = arg_or(args, "--fuel", "1000000000").parse().unwrap_or_else(|_| {
+    eprintln!("--fuel expects an integer");
+    std::process::exit(2);
+  });
+  let bytes = std::fs::read(&path).unwrap_or_else(|e| {
+    eprintln!("cannot read {path}: {e}");
+    std::process::exit(2);
+  });
+  match run_wasm(&bytes, main_fn.trim(), fuel) {
+    Ok(run) => println!("{}", serde_json::to_string(&run).unwrap()),
+    Err(e) => {
+      eprintln!("wasm-run: {e}");
+      std::process::exit(1);
+    }
+  }
 }
